@@ -1,0 +1,15 @@
+//go:build verif
+
+package policer
+
+import (
+	"context"
+
+	objectcore "github.com/nspcc-dev/neofs-node/pkg/core/object"
+)
+
+// VerifC47ProcessObject runs the policy check of one locally stored object exactly as the
+// background worker does for every listed object (external conformance harness /verif, C47).
+func (p *Policer) VerifC47ProcessObject(ctx context.Context, obj objectcore.AddressWithAttributes) {
+	p.processObject(ctx, obj)
+}
